@@ -1,4 +1,4 @@
-"""C16 — Identification strings are recognised, decomposed and sanitised correctly.
+"""C16 - Identification strings are recognised, decomposed and sanitised correctly.
 
 Theorems: SshAudit.Props.C16 over the model SshAudit.Model.Banner (Banner.parse as a
 deterministic recogniser of RX_BANNER, Banner.__str__, the ASCII filters of utils.py,
@@ -13,6 +13,7 @@ same parts; Software.parse is compared with a hand-written scanner for the ten p
 families (no `re`) and with by-construction expectations (product, version, patch).
 """
 import json
+import time
 
 from common import Coverage, tstr, tbytes, toptstr
 
@@ -22,7 +23,7 @@ NAMESPACE = 'SshAudit.C16'
 THEOREMS = ['sanitise_printable', 'sanitise_pointwise', 'sanitise_fixed_iff', 'valid_ascii_iff', 'parse_via_sanitised', 'space_printable',
             'accept_bare', 'accept_dash', 'accept_software', 'accept_comments',
             'banner_accept', 'banner_accept_nocomment', 'banner_accept_dash', 'banner_accept_bare', 'banner_accept_numeric',
-            'multi_version', 'multi_version_199', 'parse_wf', 'shown_printable', 'banner_roundtrip', 'roundtrip_excluded_point',
+            'multi_version', 'multi_version_199', 'protocol_is_min', 'collapse_joinBlanks', 'comments_words', 'parse_wf', 'shown_printable', 'banner_roundtrip', 'roundtrip_excluded_point',
             'blank_not_banner', 'header_separation', 'header_never_banner', 'banner_is_a_line',
             'segmented_witness', 'header_separation_segmented_false']
 TECHNIQUE = ('Lean 4 theorems (structural induction over texts, byte strings and recv sequences; kernel-evaluated witnesses) about a hand-written '
@@ -360,14 +361,14 @@ def gen_mutation(r):
             l += list(r.choice([' ', '  ', '\t', '\r', ' \r', '-', '\x00']))
         return {'stream': 'parse', 'line': ''.join(l), 'expect': None, 'tags': ['mutation', 'mut-' + k]}
     if x < 0.8:
-        alph = "SH-.0123459 -_aZ~\t\x7fé?"
+        alph = "SH-.0123459 -_aZ~\t\x7f\u00e9?"
         return {'stream': 'parse', 'line': ''.join(r.choice(alph) for _ in range(r.randint(0, 24))), 'expect': None, 'tags': ['random-small-alphabet']}
     parts = ['SSH-', r.choice('1239'), '.', ' ' * r.choice([0, 0, 0, 1, 2]), r.choice(MINORS)]
     for _ in range(r.choice([0, 0, 1, 2, 3])):
         parts += ['-SSH-', r.choice('12'), '.', ' ' * r.choice([0, 0, 1]), r.choice(['0', '5', '99'])]
     if r.random() < .85:
         parts.append(r.choice(['-', '-', '- ', '-  ', 'x', ' ', '']))
-        parts.append(''.join(r.choice("OpenSSH_7.4p1-._SSH-2.0é\t") for _ in range(r.randint(0, 8))))
+        parts.append(''.join(r.choice("OpenSSH_7.4p1-._SSH-2.0\u00e9\t") for _ in range(r.randint(0, 8))))
         if r.random() < .5:
             parts.append(' ' * r.randint(1, 3) + ' '.join(''.join(r.choice("abc-SSH.1 ") for _ in range(r.randint(0, 5))) for _ in range(r.randint(0, 3))) + ' ' * r.choice([0, 0, 2]))
     return {'stream': 'parse', 'line': ''.join(parts), 'expect': None, 'tags': ['regex-stress']}
@@ -592,7 +593,9 @@ def oracle_getbanner(case):
             if 'ok' in ref and not sub and ref['ok']['header'] == exp['header']:
                 _fail(fs, 'segmented_banner', case, res, {'banner': exp['banner'], 'header': exp['header']}, how + ' (delivered as whole lines the same bytes are reported correctly)')
             else:
-                _fail(fs, 'header_separation', case, res, exp, how, {'part': d.split('.')[0]})
+                # wrong even when every recv() returns whole lines: report that simpler delivery
+                wl = dict(ref_case, mode='per-line', chunks=[c.hex() for c in lines + ([tr] if tr else [])])
+                return oracle_getbanner(wl)
         else:
             _fail(fs, 'header_separation', case, res, exp, how, {'part': d.split('.')[0]})
     if 'ok' in res:
@@ -681,7 +684,7 @@ CORPUS = [
     {'stream': 'parse', 'line': 'SSH-1.99-SSH-2.0-dropbear_0.5', 'expect': {'protocol': [1, 99], 'protocol_any': [[1, 99], [2, 0]], 'software': 'dropbear_0.5', 'comments': None, 'valid': True}},
     {'stream': 'parse', 'line': 'SSH-2.0-  OpenSSH_4.3p2 Debian-9etch3   on   i686-pc-linux-gnu  ', 'expect': None},
     {'stream': 'parse', 'line': 'SSH-1.5- SSH-3.0-bar', 'expect': None},
-    {'stream': 'parse', 'line': 'SSH-2.0-dropbear_2019.78 café\t!', 'expect': {'protocol': [2, 0], 'protocol_any': [[2, 0]], 'software': 'dropbear_2019.78', 'comments': 'caf??!', 'valid': False}},
+    {'stream': 'parse', 'line': 'SSH-2.0-dropbear_2019.78 caf\u00e9\t!', 'expect': {'protocol': [2, 0], 'protocol_any': [[2, 0]], 'software': 'dropbear_2019.78', 'comments': 'caf??!', 'valid': False}},
     {'stream': 'parse', 'line': 'SSH-2.0', 'expect': {'protocol': [2, 0], 'protocol_any': [[2, 0]], 'software': None, 'comments': None, 'valid': True}},
     {'stream': 'parse', 'line': 'SSH-2.0-', 'expect': {'protocol': [2, 0], 'protocol_any': [[2, 0]], 'software': '', 'comments': None, 'valid': True}},
     # D17 witness (known finding): the banner line cut in two
@@ -695,45 +698,11 @@ CORPUS = [
 
 # ---------------------------------------------------------------- run
 
-def run(ctx):
-    r = ctx.rng
-    cov = Coverage('one evaluation per generated input and oracle stream (line -> Banner.parse; recv script -> get_banner; software string -> Software.parse; '
-                   'whole audit); non-trivial = distinct inputs that the implementation accepts as a banner / recognises as a product, or (header stream) that carry '
-                   'at least one header line or trailing bytes')
-    failures, mismatches = [], []
-    cases = [dict(c, tags=['corpus']) for c in CORPUS]
-    n_lines = ctx.scale(30000, 2000000)
-    for _ in range(n_lines * 6 // 10):
-        cases.append(gen_grammar(r))
-    for _ in range(n_lines * 4 // 10):
-        cases.append(gen_mutation(r))
-    for mode, k in (('one', 4), ('per-line', 3), ('groups', 3), ('segmented', 2)):
-        for _ in range(ctx.scale(250, 10000) * k):
-            cases.append(gen_stream(r, mode))
-    for _ in range(ctx.scale(6000, 200000)):
-        cases.append(gen_software(r))
-    e2e_n = ctx.scale(60, 1500)
-    e2e_cases = []
-    while len(e2e_cases) < e2e_n:
-        c = gen_stream(r, 'one')
-        eb = c['expect']['banner']
-        if eb['protocol'] != [2, 0] or c['trailing']:
-            continue   # the scripted peer speaks SSH-2 right after its banner
-        e2e_cases.append(dict(c, stream='e2e', tags=['e2e'] + c['tags'][1:]))
-    cases += e2e_cases
-
-    # ---- correspondence lines
-    ops = []   # (op, arg)
-    for c in cases:
-        if c['stream'] == 'parse':
-            ops.append(('banner.parse', c['line']))
-            ops.append(('banner.rx', c['line']))
-            ops.append(('banner.reparse', c['line']))
-        elif c['stream'] == 'getbanner':
-            ops.append(('getbanner', [bytes.fromhex(x) for x in c['chunks']]))
-    ops.append(('uspace.table', None))
+def extra_ops(ctx, r):
+    """Correspondence-only operations (filters, decoder, line cutting, rendering of arbitrary field values)."""
+    ops = [('uspace.table', None)]
     for _ in range(ctx.scale(3000, 60000)):
-        s = ''.join(r.choice(['a', 'Z', ' ', '~', '\x7f', '\x1f', '\x00', '\x80', 'é', '￿', '\U0010ffff', '?', '\t', chr(r.randint(0, 0x2ff)), chr(r.choice([31, 32, 33, 125, 126, 127, 128]))])
+        s = ''.join(r.choice(['a', 'Z', ' ', '~', '\x7f', '\x1f', '\x00', '\x80', '\u00e9', '\uffff', '\U0010ffff', '?', '\t', chr(r.randint(0, 0x2ff)), chr(r.choice([31, 32, 33, 125, 126, 127, 128]))])
                     for _ in range(r.choice([0, 1, 2, 5, 9, 30])))
         for op in ('ascii.is', 'ascii.to', 'ascii.to_ignore', 'ascii.is_print', 'ascii.to_print', 'ascii.to_print_ignore'):
             ops.append((op, s))
@@ -747,31 +716,83 @@ def run(ctx):
         sw = r.choice([None, '', 'OpenSSH_7.4', 'x y', gen_token(r, False)])
         cm = r.choice([None, '', 'Ubuntu-1', 'a b', ' '])
         ops.append(('banner.render', (r.choice([0, 1, 2, 9, 10, 123]), r.choice([0, 5, 99, 100, 10 ** 20]), sw, cm)))
-    lines = [line_of(op, arg) for op, arg in ops]
-    model = ctx.driver(lines) if ctx.driver_ok else [None] * len(lines)
-    for (op, arg), line, m in zip(ops, lines, model):
-        if m is None:
+    return ops
+
+
+def gen_e2e(r):
+    while True:
+        c = gen_stream(r, 'one')
+        eb = c['expect']['banner']
+        # the scripted peer speaks SSH-2 right after its banner; everything up to the banner's LF fits one recv()
+        if eb['protocol'] != [2, 0] or c['trailing'] or sum(len(l) for l in c['whole_lines']) // 2 > 2048:
             continue
-        res = guard(lambda: impl(op, arg))
-        cm = canon_model(op, m)
-        if cm != res:
-            mismatches.append({'stream': op.split('.')[0], 'op': line[:400], 'model': json.dumps(cm)[:600], 'impl': json.dumps(res)[:600]})
-    # ---- oracle
-    for c in cases:
-        fs, obs = ORACLES[c['stream']](c)
-        failures.extend(fs)
-        if c['stream'] == 'parse':
-            key, nontrivial = ('p', c['line']), obs is not None
-        elif c['stream'] in ('getbanner', 'e2e'):
-            key, nontrivial = (c['stream'], tuple(c['chunks'])), bool(c['expect']['header'] or c['trailing'])
-        else:
-            key, nontrivial = ('s', c['software']), obs is not None
-        sample = None
-        if cov.evaluations % 4999 == 0:
-            sample = {'stream': c['stream'], 'input': (c.get('line') or c.get('software') or c.get('chunks'))[:3] if isinstance(c.get('chunks'), list) and not c.get('line') and not c.get('software')
-                      else (c.get('line') or c.get('software')), 'impl': json.dumps(obs, default=str)[:200]}
-        cov.add(key, nontrivial, tags=c['tags'] + (['accepted'] if (c['stream'] == 'parse' and obs is not None) else []), sample=sample)
-    return {'failures': failures, 'mismatches': mismatches, 'coverage': cov, 'corr_cases': len(lines) if ctx.driver_ok else 0,
+        return dict(c, stream='e2e', tags=['e2e'] + c['tags'][1:])
+
+
+def run(ctx):
+    r = ctx.rng
+    cov = Coverage('one evaluation per generated input and oracle stream (line -> Banner.parse; recv script -> get_banner; software string -> Software.parse; '
+                   'whole audit); non-trivial = distinct inputs that the implementation accepts as a banner / recognises as a product, or (recv scripts, audits) that carry '
+                   'at least one header line or trailing bytes')
+    failures, mismatches = [], []
+    corr = [0]
+
+    def correspond(ops):
+        if not ctx.driver_ok or not ops:
+            return
+        lines = [line_of(op, arg) for op, arg in ops]
+        for attempt in range(6):
+            try:
+                model = ctx.driver(lines)
+                break
+            except (FileNotFoundError, PermissionError, OSError):
+                # another build is relinking the driver at this very moment
+                if attempt == 5:
+                    raise
+                time.sleep(5)
+        corr[0] += len(lines)
+        for (op, arg), line, m in zip(ops, lines, model):
+            res = guard(lambda: impl(op, arg))
+            cm = canon_model(op, m)
+            if cm != res and len(mismatches) < 200:
+                mismatches.append({'stream': op.split('.')[0], 'op': line[:400], 'model': json.dumps(cm)[:600], 'impl': json.dumps(res)[:600]})
+
+    def process(cases):
+        ops = []
+        for c in cases:
+            if c['stream'] == 'parse':
+                ops.append(('banner.parse', c['line']))
+                ops.append(('banner.rx', c['line']))
+                ops.append(('banner.reparse', c['line']))
+            elif c['stream'] == 'getbanner':
+                ops.append(('getbanner', [bytes.fromhex(x) for x in c['chunks']]))
+        correspond(ops)
+        for c in cases:
+            fs, obs = ORACLES[c['stream']](c)
+            if len(failures) < 2000:
+                failures.extend(fs)
+            if c['stream'] == 'parse':
+                key, nontrivial, shown_in = ('p', c['line']), obs is not None, c['line']
+            elif c['stream'] in ('getbanner', 'e2e'):
+                key, nontrivial, shown_in = (c['stream'], tuple(c['chunks'])), bool(c['expect']['header'] or c['trailing']), c['chunks'][:3]
+            else:
+                key, nontrivial, shown_in = ('s', c['software']), obs is not None, c['software']
+            sample = {'stream': c['stream'], 'input': shown_in, 'impl': json.dumps(obs, default=str)[:200]} if cov.evaluations % 4999 == 0 else None
+            cov.add(key, nontrivial, tags=c['tags'] + (['accepted'] if (c['stream'] == 'parse' and obs is not None) else []), sample=sample)
+
+    process([dict(c, tags=['corpus']) for c in CORPUS])
+    n_lines = ctx.scale(30000, 2000000)
+    done = 0
+    while done < n_lines:
+        k = min(50000, n_lines - done)
+        process([gen_grammar(r) if i % 10 < 6 else gen_mutation(r) for i in range(k)])
+        done += k
+    for mode, k in (('one', 4), ('per-line', 3), ('groups', 3), ('segmented', 2)):
+        process([gen_stream(r, mode) for _ in range(ctx.scale(800, 12000) * k)])
+    process([gen_software(r) for _ in range(ctx.scale(15000, 200000))])
+    process([gen_e2e(r) for _ in range(ctx.scale(200, 2000))])
+    correspond(extra_ops(ctx, r))
+    return {'failures': failures, 'mismatches': mismatches, 'coverage': cov, 'corr_cases': corr[0],
             'assumptions': ['the regular-expression engine is represented in the model by a deterministic recogniser; its agreement with `re` (match / no match, all four groups, the findall pairs) is tested on every generated line (banner.rx), not proved',
                             'int() of the minor-version digits is total: fewer than 4300 digits (a line read by get_banner has at most 2048 bytes)',
                             'get_banner is modelled on a connected socket without a cached banner; every recv() result is at most 2048 bytes and an exhausted script reads as "peer closed"; timeouts and socket errors end the loop the same way and are not distinguished',
